@@ -3,7 +3,7 @@ driver runs, TLC runs (exhaustive / trace validation / MBT export), evidence, fi
 
 Exit-code contract (see DESIGN.md 0.2): 0 = held, 1 = VIOLATION printed, 2 = infrastructure.
 """
-import json, os, re, shutil, subprocess, sys, tempfile, time, hashlib
+import json, os, re, shutil, subprocess, sys, tempfile, threading, time, hashlib
 
 VERIF = os.path.dirname(os.path.abspath(__file__))
 REPO = os.environ.get("VERIF_REPO", "/repo")
@@ -125,11 +125,18 @@ def run_driver(binary, driver, outdir, params=None, timeout=1200, extra_env=None
 JAR = "/opt/veriftools/tla/tla2tools.jar:/opt/veriftools/tla/CommunityModules-deps.jar"
 
 
+_specdir_lock = threading.Lock()
+
+
 def _specdir():
     """Scratch copy of /verif/spec so that TLC's litter never lands in /verif."""
     d = os.path.join(scratch(), "spec")
-    if not os.path.isdir(d):
-        shutil.copytree(os.path.join(VERIF, "spec"), d)
+    with _specdir_lock:
+        if not os.path.isdir(d):
+            tmp = d + ".tmp"
+            shutil.rmtree(tmp, ignore_errors=True)
+            shutil.copytree(os.path.join(VERIF, "spec"), tmp)
+            os.rename(tmp, d)
     return d
 
 
